@@ -103,6 +103,14 @@ func (c *Ctx) ruleR03c(rule string) {
 		if ok && u.Op == token.MUL {
 			fv, isFV = u.X.(*ssa.FreeVar)
 		}
+		if !isFV && strings.HasPrefix(keyDesc(idx), "recv.") {
+			if why := c.recvKeyDefinedOnce(m.Fn, idx); why == "" {
+				c.R.Hold(rule, fn+" parser index", "a field of the parser value, stored once at construction from an atomic increment; no other writer")
+			} else {
+				c.R.Violation(rule, fn+" index definition", fn, c.P.InstrPos(m.Get), why)
+			}
+			continue
+		}
 		if !isFV {
 			c.R.Violation(rule, fn+" index not captured", fn, c.P.InstrPos(m.Get), "the cache key is not a variable captured from the constructor ("+idx.String()+"): computed per call, two parsers or two calls of one parser can collide or diverge")
 			continue
@@ -320,10 +328,11 @@ func (c *Ctx) ruleR03d(rule string) {
 			site := c.name(fn) + " " + sc.Name() + " @" + c.P.InstrPos(cl)
 			m := memoFns[fn]
 			ok2 := false
-			if m != nil {
+			if m != nil && m.Get != nil && len(m.Get.Call.Args) == 4 {
 				P := ownParam(fn, "parsley", "Pos")
+				L := ownParam(fn, "data", "IntMap")
 				for _, cd := range ssax.DominatingConds(cl.Block()) {
-					if _, _, isC := curtailCond(cd.Val, P); isC && cd.Truth {
+					if _, isC := c.curtailTest(fn, cd.Val, L, P, m.Get.Call.Args[1]); isC && cd.Truth {
 						ok2 = true
 					}
 				}
@@ -513,4 +522,72 @@ func (c *Ctx) keysConsumersOrderInsensitive(fn *ssa.Function) bool {
 		}
 	}
 	return true
+}
+
+// recvKeyDefinedOnce: the receiver field used as cache key has exactly one store in the library, from
+// sync/atomic.Add*(&counter, nonzero constant), and the counter has no other writer. Returns "" when fine.
+func (c *Ctx) recvKeyDefinedOnce(fn *ssa.Function, idx ssa.Value) string {
+	u, ok := ssax.Strip(idx).(*ssa.UnOp)
+	var fv *types.Var
+	if ok {
+		if fa, ok := u.X.(*ssa.FieldAddr); ok {
+			fv = fieldVar(fa)
+		}
+	}
+	if f, ok := ssax.Strip(idx).(*ssa.Field); ok {
+		fv = f.X.Type().Underlying().(*types.Struct).Field(f.Field)
+	}
+	if fv == nil {
+		return "the cache key is not a plain field of the receiver"
+	}
+	stores := 0
+	good := false
+	gname := ""
+	for _, g := range c.P.LibFuncs {
+		for _, b := range g.Blocks {
+			for _, in := range b.Instrs {
+				st, ok := in.(*ssa.Store)
+				if !ok {
+					continue
+				}
+				fa, ok := st.Addr.(*ssa.FieldAddr)
+				if !ok || fieldVar(fa) != fv {
+					continue
+				}
+				stores++
+				v := st.Val
+				if cv, ok := v.(*ssa.Convert); ok {
+					v = cv.X
+				}
+				if call, ok := v.(*ssa.Call); ok {
+					if sc := call.Call.StaticCallee(); sc != nil && sc.Pkg != nil && sc.Pkg.Pkg.Path() == "sync/atomic" && strings.HasPrefix(sc.Name(), "Add") {
+						if gl, ok := call.Call.Args[0].(*ssa.Global); ok {
+							if d, isC := ssax.ConstInt(call.Call.Args[1]); isC && d != 0 {
+								good = true
+								gname = c.P.Rel(gl.Pkg.Pkg.Path()) + "." + gl.Name()
+							}
+						}
+					}
+				}
+			}
+		}
+	}
+	if stores != 1 || !good {
+		return fmt.Sprintf("the parser-index field %s is stored %d time(s) and not exactly once from sync/atomic.Add*(&counter, nonzero constant): indexes may repeat, and two parsers then share cache entries", fv.Name(), stores)
+	}
+	a := c.Own()
+	for _, f := range c.P.LibFuncs {
+		if isInit(f) {
+			continue
+		}
+		for _, e := range a.Info[f].SortedEffects() {
+			if e.Root.K == own.RGlobal && e.Root.Obj == gname && e.In == f && len(e.Chain) == 0 {
+				if e.Atomic && isAtomicRMW(strings.TrimPrefix(e.Via, "extern:")) {
+					continue
+				}
+				return "the parser-index counter " + gname + " has another writer in " + c.name(f)
+			}
+		}
+	}
+	return ""
 }
